@@ -107,13 +107,16 @@ class Model:
 
 
 # ---------------------------------------------------------------- one real session
-def run_session(exe, cwd, opts, script, trace=None, inject=None, timeout=120):
+def run_session(exe, cwd, opts, script, trace=None, inject=None, timeout=120, inject_all=None):
     """run `c02 db opts` in cwd with the script on stdin (optionally under strace).
     inject = (ev, what): `what` (signal=SIGKILL | error=EIO..) at exactly the call ev of a previous
     recording of the same script from the same directory.  -> list of '@@ ..' lines"""
     cmd = [exe, "db"] + BASE_OPTS + opts
     if trace is not None or inject is not None:
         st = ["strace", "-f", "-y", "-xx", "-s", "8000000", "-o", trace or "/dev/null", "-e", "trace=" + F.TRACE_SET]
+        if inject_all:
+            # no -P: the whole run is traced; `when` counts the calls of this syscall per thread
+            st += ["-e", "inject=%s:%s:when=%d" % inject_all]
         if inject:
             ev, what = inject
             rel = os.path.join("db", ev.p1) if ev.p1 else "db"
@@ -344,6 +347,15 @@ def session_script(sess):
     return lines, items
 
 
+class StopLockstep(Exception):
+    """the model does not continue past this point of a faulted session; resume = the operation from
+    which the rest of the session is judged against the specification alone (None: abandon the run)"""
+
+    def __init__(self, resume=None):
+        Exception.__init__(self)
+        self.resume = resume
+
+
 class WX(list):
     """a write batch that carries the length the log must have afterwards"""
 
@@ -374,7 +386,8 @@ class History:
         self.known = []
         self.stats = {"sessions": 0, "ops": 0, "writes": 0, "flushes": 0, "compactions": 0, "moves": 0, "gc": 0, "events": 0, "dropped_events": 0,
                       "probes": 0, "probes_a": 0, "probes_b": 0, "probes_r": 0, "probes_l": 0, "nested": 0, "kills": 0, "faults": 0, "faults_surfaced": 0, "faults_dropped_ok": 0,
-                      "inflight_in": 0, "inflight_out": 0, "trace_calls_compared": 0, "probe_points": {}}
+                      "inflight_in": 0, "inflight_out": 0, "trace_calls_compared": 0, "probe_points": {},
+                      "steps_accepted_evaluated": 0, "accepted_rejections": 0, "gc_steps_accepted": 0}
         self.bind = {}          # real setsum hex -> model sst id
         self.rbind = {}
         self.dbind = {}         # real compaction dir hex -> model dir id
@@ -614,6 +627,9 @@ class History:
         per history, spread evenly; the (rare) compactions are always probed densely"""
         if not getattr(self, "probing", True):
             return False
+        if getattr(self, "fault_mode", False):
+            # a faulted session: the crash points before the error were probed in the main pass
+            return getattr(self, "in_continuation", False) and self.rng.chance(1, 3)
         if opdesc.startswith("compact"):
             return self.tier != "quick" or self.rng.chance(1, 2)
         budget = 45 if self.tier == "quick" else 400
@@ -772,18 +788,34 @@ class History:
         # ---- injected I/O errors
         self.fault_runs(self.fault_plan)
 
-    def play_session(self, real, si, sess):
+    def play_session(self, real, si, sess, fault=None):
         """one session of the real store in directory `real` (recorded under strace) and, in lock step,
-        the same operations on the model; crash points probed while self.probing"""
+        the same operations on the model; crash points probed while self.probing.
+        fault = (op number, recorded event, errno, the main pass' session index): the same session with
+        an I/O error injected into that call; the model takes the error too and BOTH go on"""
         root_abs = os.path.join(real, "db")
-        fault_plan = self.fault_plan if self.probing else []
+        fault_plan = self.fault_plan if self.probing and fault is None else []
         script, items = session_script(sess)
         start_fs = self.fs.clone()
         trace = os.path.join(self.dir, "s%d.trace" % si)
-        so = SessionOut(run_session(self.exe, real, self.opts, script, trace=trace))
+        if fault is None:
+            so = SessionOut(run_session(self.exe, real, self.opts, script, trace=trace))
+            if self.probing:
+                self.model.cmd("SNAP s%d" % si)
+                self.session_ops = getattr(self, "session_ops", {})
+                self.session_ops[si] = sess
+        else:
+            so = SessionOut(run_session(self.exe, real, self.opts, script, trace=trace,
+                                        inject_all=(fault[1].sys, "error=" + fault[2], fault[1].tk), timeout=90))
         self.stats["sessions"] += 1
         evs, _ = F.parse_trace(trace, root_abs, "db")
         os.unlink(trace)
+        if fault is not None:
+            inj = [e for e in evs if e.injected]
+            if len(inj) != 1 or inj[0].sys != fault[1].sys or inj[0].p1 != fault[1].p1 or so.hang:
+                # the injection hit another thread's call as well (or instead): nothing to judge
+                self.stats["fault_lockstep_discarded"] = self.stats.get("fault_lockstep_discarded", 0) + 1
+                raise StopLockstep()
         self.all_events = getattr(self, "all_events", {})
         self.all_events[si] = evs
         # segment the events by the markers
@@ -811,7 +843,8 @@ class History:
         if so.open != "ok" or so.hang:
             self.problem("prop", "open failed in a fault-free history: %s" % so.open, replay={"options": self.optname, "history": ops_to_json(self.ops), "session": si})
             raise Problem()
-        kill_ctx = (start_fs, script) if self.probing else None
+        kill_ctx = (start_fs, script) if self.probing and fault is None else None
+        self.pendc = getattr(self, "pendc", {})
         # ---- open
         oevs = segs.get("open", [])
         self.stats["events"] += len(oevs)
@@ -825,117 +858,325 @@ class History:
             self.problem("corr", "model open failed: " + g)
             raise Problem()
         # ---- operations
-        for n, (kind, payload) in enumerate(items, start=1):
-            res = so.res.get(n)
-            oe = segs.get(n, [])
-            self.stats["events"] += len(oe)
-            if res is None:
-                self.problem("prop", "operation did not return: %s" % kind, replay={"options": self.optname, "history": ops_to_json(self.ops), "session": si, "op": n})
-                raise Problem()
-            if kind == "dump":
-                files, seq = parse_dump(so.info.get(n, []), res, self.cache)
-                self.tree = [nm for _, nm in files]
-                self.tree_levels = files
-                self.sync_files(g, files, seq, "session %d op %d" % (si, n))
-                if oe:
-                    self.problem("corr", "dump issued store calls", calls=[repr(e) for e in oe[:3]])
-                continue
-            if kind == "getall":
-                continue
-            self.stats["ops"] += 1
-            if kind == "w":
-                if res != "ok":
-                    self.outside("write failed in a fault-free history: %s" % res, si, n)
+        try:
+            for n, (kind, payload) in enumerate(items, start=1):
+                res = so.res.get(n)
+                oe = segs.get(n, [])
+                self.stats["events"] += len(oe)
+                if res is None:
+                    self.problem("prop", "operation did not return: %s" % kind, replay={"options": self.optname, "history": ops_to_json(self.ops), "session": si, "op": n})
                     raise Problem()
-                self.stats["writes"] += 1
-                m = self.model.cmd("PEND W " + ",".join("%s=%s" % (hx(k), "~" if v is None else hx(mv(v))) for k, v in payload))
-                kept, prefix = self.canon_events(oe)
-                self.compare_trace(kept, [c for c in m[6:].split(" ; ") if c], "write (session %d op %d)" % (si, n))
-                self.probe_points(oe, prefix, "during write %d of session %d" % (n, si), list(self.acked), payload, "write " + script[n - 1], si, kill_ctx)
-                fault_plan += self.plan_faults(si, n, oe, prefix)
-                g = self.model_go("session %d op %d" % (si, n))
-                self.acked.append(list(payload))
-                if isinstance(payload, WX):
-                    logs = [len(nd.data) for p_, nd in self.fs.files.items() if p_.startswith("log.")]
-                    self.stats["biglog_writes"] = self.stats.get("biglog_writes", 0) + 1
-                    if logs != [payload.end]:
-                        self.problem("corr", "big-log history: the log is not as long as the framing arithmetic says", want=payload.end, got=logs)
-                    elif payload.end % BLOCK in (0,) + tuple(BLOCK - i for i in range(1, 21)):
-                        self.stats["biglog_frame_ends_near_boundary"] = self.stats.get("biglog_frame_ends_near_boundary", 0) + 1
-            elif kind == "flush":
-                if not res.startswith("ok"):
-                    self.outside("flush failed in a fault-free history: %s" % res, si, n)
-                    raise Problem()
-                self.stats["flushes"] += 1
-                m = self.model.cmd("PEND F")
-                kept, prefix = self.canon_events(oe)
-                self.compare_trace(kept, [c for c in m[6:].split(" | ")[0].split(" ; ") if c], "flush (session %d op %d)" % (si, n))
-                self.probe_points(oe, prefix, "during flush %d of session %d" % (n, si), list(self.acked), None, "flush", si, kill_ctx)
-                fault_plan += self.plan_faults(si, n, oe, prefix)
-                g = self.model_go("session %d op %d" % (si, n))
-            elif kind == "compact":
-                t = res.split(" ")
-                if t[0] == "none":
+                if kind == "dump":
+                    files, seq = parse_dump(so.info.get(n, []), res, self.cache)
+                    self.tree = [nm for _, nm in files]
+                    self.tree_levels = files
+                    self.sync_files(g, files, seq, "session %d op %d" % (si, n))
                     if oe:
-                        self.problem("corr", "a compaction step that found nothing issued store calls")
+                        self.problem("corr", "dump issued store calls", calls=[repr(e) for e in oe[:3]])
                     continue
-                if t[0] != "ok":
-                    # K2 (C01): after a reopen recover.rs can build a level whose files overlap; the selector's
-                    # assertion (find_best_compaction) then panics and leaves the tree's mutex poisoned.  Only
-                    # that shape is the known class: a PANIC while the last dumped tree has an ill-formed level.
-                    # Anything else is a fault-free operation that failed: a violation.
-                    if res == "PANIC" and (self.tree_ill_formed() or getattr(self, "k2_poisoned", False)):
-                        self.known.append(("K2", "a compaction step panics on a reopened tree with an ill-formed level"))
-                        self.stats["k2_selector_failures"] = self.stats.get("k2_selector_failures", 0) + 1
-                        self.k2_poisoned = True
-                    else:
-                        self.problem("prop", "compaction failed in a fault-free history: %s" % res,
-                                     replay={"options": self.optname, "history": ops_to_json(self.ops), "session": si, "op": n})
-                        raise Problem()
-                    if oe:
-                        raise Problem()
+                if kind == "getall":
                     continue
-                inputs = t[6].split(",")
-                if len(inputs) == 1:
-                    self.stats["moves"] += 1
-                    if oe:
-                        self.problem("corr", "a trivial move issued store calls", calls=[repr(e) for e in oe[:3]])
-                    continue
-                self.stats["compactions"] += 1
-                # the outputs: what the next dump shows that was not there, plus inputs that stayed
-                nfiles, _ = parse_dump(so.info.get(n + 1, []), so.res.get(n + 1, ""), self.cache)
-                after = [nm for _, nm in nfiles]
-                before = set(self.tree)
-                outs = [nm for nm in after if nm not in before or nm in inputs]
-                in_e = set(ent_str(e) for nm in inputs for e in self.cache.get(nm, ([], None))[0])
-                out_e = set(ent_str(e) for nm in outs for e in self.cache.get(nm, ([], None))[0])
-                if in_e != out_e:
-                    self.stats["gc"] += 1
-                ids = []
-                for nm in inputs:
-                    if nm not in self.bind:
-                        self.problem("corr", "compaction input unknown to the model", name=nm)
+                self.stats["ops"] += 1
+                if kind == "w":
+                    m = self.model.cmd("PEND W " + ",".join("%s=%s" % (hx(k), "~" if v is None else hx(mv(v))) for k, v in payload))
+                    if fault is not None:
+                        if n == fault[0]:
+                            self.cur_payload = payload
+                            g = self.faulted_op(fault, oe, res, "write", si, n)
+                            if res == "ok":
+                                self.acked.append(list(payload))
+                            continue
+                        if n > fault[0] and m == "CALLS ":
+                            # the model refuses the write: the log failed earlier in this session
+                            self.stats["fault_lockstep_refusals"] = self.stats.get("fault_lockstep_refusals", 0) + 1
+                            if res == "ok":
+                                self.problem("prop", "a write was acknowledged after the log had failed (the frame cannot be trusted to be in the log)",
+                                             replay=self.fault_rp(fault, si, n))
+                                raise Problem()
+                            if [e for e in oe if F.canon_call(e) is not None]:
+                                self.problem("corr", "a refused write issued store calls", calls=[repr(e) for e in oe[:3]])
+                            g = self.model.cmd("GO")
+                            continue
+                    if res != "ok":
+                        if fault is not None:
+                            self.problem("prop", "after an injected error a later write failed although its log is intact: %s" % res, replay=self.fault_rp(fault, si, n))
+                        else:
+                            self.outside("write failed in a fault-free history: %s" % res, si, n)
                         raise Problem()
-                    ids.append(int(self.bind[nm]))
-                # the directory name is the sum of the inputs (order-free); the inputs are retired in the order
-                # of the old version's levels: give the model the order the renames to trash/ were issued in,
-                # so that a crash image taken between two of them is the same directory on both sides
-                retired = [e_.p1[4:-4] for e_ in oe if e_.kind == "rename" and (e_.p1 or "").startswith("sst/") and (e_.p2 or "").startswith("trash/")]
-                rank = {nm: i for i, nm in enumerate(retired)}
-                order = sorted(range(len(ids)), key=lambda i: (rank.get(inputs[i], len(rank)), ids[i]))
-                # outputs in the order the multi-builder cut them: ascending first key
-                outs.sort(key=lambda nm: self.cache[nm][0][0][0] if self.cache[nm][0] else b"")
-                m = self.model.cmd("PEND C %s %s | %s" % ("gc" if int(t[2]) == 15 else "merge", ",".join(str(ids[i]) for i in order),
-                                                      " ; ".join(",".join(ent_str(e) for e in self.cache[nm][0]) for nm in outs)))
-                kept, prefix = self.canon_events(oe)
-                self.compare_trace(kept, [c for c in m[6:].split(" ; ") if c], "compaction (session %d op %d)" % (si, n))
-                self.probe_points(oe, prefix, "during compaction %d of session %d" % (n, si), list(self.acked), None, "compact " + res[:60], si, kill_ctx)
-                fault_plan += self.plan_faults(si, n, oe, prefix)
-                g = self.model_go("session %d op %d" % (si, n))
+                    self.stats["writes"] += 1
+                    self.model_accepts("write", "session %d op %d" % (si, n), si, n)
+                    kept, prefix = self.canon_events(oe)
+                    self.compare_trace(kept, [c for c in m[6:].split(" ; ") if c], "write (session %d op %d)" % (si, n))
+                    self.probe_points(oe, prefix, "during write %d of session %d" % (n, si), list(self.acked), payload, "write " + script[n - 1], si, kill_ctx)
+                    fault_plan += self.plan_faults(si, n, oe, prefix)
+                    g = self.model_go("session %d op %d" % (si, n))
+                    self.acked.append(list(payload))
+                    if isinstance(payload, WX):
+                        logs = [len(nd.data) for p_, nd in self.fs.files.items() if p_.startswith("log.")]
+                        self.stats["biglog_writes"] = self.stats.get("biglog_writes", 0) + 1
+                        if logs != [payload.end]:
+                            self.problem("corr", "big-log history: the log is not as long as the framing arithmetic says", want=payload.end, got=logs)
+                        elif payload.end % BLOCK in (0,) + tuple(BLOCK - i for i in range(1, 21)):
+                            self.stats["biglog_frame_ends_near_boundary"] = self.stats.get("biglog_frame_ends_near_boundary", 0) + 1
+                elif kind == "flush":
+                    m = self.model.cmd("PEND F")
+                    if m.startswith("ERROR outside"):
+                        raise StopLockstep(resume=n)        # a flush while the log has failed: the model does not follow
+                    if fault is not None:
+                        if n == fault[0]:
+                            g = self.faulted_op(fault, oe, res, "flush", si, n)
+                            continue
+                        if n > fault[0] and m.startswith("CALLS  | FLAG 0"):
+                            if res.startswith("ok"):
+                                self.problem("prop", "a flush succeeded after the memtable thread had died", replay=self.fault_rp(fault, si, n))
+                                raise Problem()
+                            g = self.model.cmd("GO")
+                            continue
+                    if not res.startswith("ok"):
+                        if fault is not None:
+                            self.problem("prop", "after an injected error a later flush failed although nothing it needs had failed: %s" % res, replay=self.fault_rp(fault, si, n))
+                        else:
+                            self.outside("flush failed in a fault-free history: %s" % res, si, n)
+                        raise Problem()
+                    self.stats["flushes"] += 1
+                    self.model_accepts("flush", "session %d op %d" % (si, n), si, n)
+                    kept, prefix = self.canon_events(oe)
+                    self.compare_trace(kept, [c for c in m[6:].split(" | ")[0].split(" ; ") if c], "flush (session %d op %d)" % (si, n))
+                    self.probe_points(oe, prefix, "during flush %d of session %d" % (n, si), list(self.acked), None, "flush", si, kill_ctx)
+                    fault_plan += self.plan_faults(si, n, oe, prefix)
+                    g = self.model_go("session %d op %d" % (si, n))
+                elif kind == "compact":
+                    t = res.split(" ")
+                    if fault is not None and n == fault[0]:
+                        # the compaction the error is injected into: its inputs and outputs are those of the main pass
+                        m = self.model.cmd(self.pendc[(fault[3], n)])
+                        g = self.faulted_op(fault, oe, res, "compact", si, n)
+                        continue
+                    if t[0] == "none":
+                        if oe:
+                            self.problem("corr", "a compaction step that found nothing issued store calls")
+                        continue
+                    if t[0] != "ok" and fault is not None and res != "PANIC":
+                        self.problem("prop", "after an injected error a later compaction failed: %s" % res, replay=self.fault_rp(fault, si, n))
+                        raise Problem()
+                    if t[0] != "ok":
+                        # K2 (C01): after a reopen recover.rs can build a level whose files overlap; the selector's
+                        # assertion (find_best_compaction) then panics and leaves the tree's mutex poisoned.  Only
+                        # that shape is the known class: a PANIC while the last dumped tree has an ill-formed level.
+                        # Anything else is a fault-free operation that failed: a violation.
+                        if res == "PANIC" and (self.tree_ill_formed() or getattr(self, "k2_poisoned", False)):
+                            self.known.append(("K2", "a compaction step panics on a reopened tree with an ill-formed level"))
+                            self.stats["k2_selector_failures"] = self.stats.get("k2_selector_failures", 0) + 1
+                            self.k2_poisoned = True
+                        else:
+                            self.problem("prop", "compaction failed in a fault-free history: %s" % res,
+                                         replay={"options": self.optname, "history": ops_to_json(self.ops), "session": si, "op": n})
+                            raise Problem()
+                        if oe:
+                            raise Problem()
+                        continue
+                    inputs = t[6].split(",")
+                    if len(inputs) == 1:
+                        self.stats["moves"] += 1
+                        if oe:
+                            self.problem("corr", "a trivial move issued store calls", calls=[repr(e) for e in oe[:3]])
+                        continue
+                    self.stats["compactions"] += 1
+                    # the outputs: what the next dump shows that was not there, plus inputs that stayed
+                    nfiles, _ = parse_dump(so.info.get(n + 1, []), so.res.get(n + 1, ""), self.cache)
+                    after = [nm for _, nm in nfiles]
+                    before = set(self.tree)
+                    outs = [nm for nm in after if nm not in before or nm in inputs]
+                    in_e = set(ent_str(e) for nm in inputs for e in self.cache.get(nm, ([], None))[0])
+                    out_e = set(ent_str(e) for nm in outs for e in self.cache.get(nm, ([], None))[0])
+                    if in_e != out_e:
+                        self.stats["gc"] += 1
+                    ids = []
+                    for nm in inputs:
+                        if nm not in self.bind:
+                            self.problem("corr", "compaction input unknown to the model", name=nm)
+                            raise Problem()
+                        ids.append(int(self.bind[nm]))
+                    # the directory name is the sum of the inputs (order-free); the inputs are retired in the order
+                    # of the old version's levels: give the model the order the renames to trash/ were issued in,
+                    # so that a crash image taken between two of them is the same directory on both sides
+                    retired = [e_.p1[4:-4] for e_ in oe if e_.kind == "rename" and (e_.p1 or "").startswith("sst/") and (e_.p2 or "").startswith("trash/")]
+                    rank = {nm: i for i, nm in enumerate(retired)}
+                    order = sorted(range(len(ids)), key=lambda i: (rank.get(inputs[i], len(rank)), ids[i]))
+                    # outputs in the order the multi-builder cut them: ascending first key
+                    outs.sort(key=lambda nm: self.cache[nm][0][0][0] if self.cache[nm][0] else b"")
+                    pc = "PEND C %s %s | %s" % ("gc" if int(t[2]) == 15 else "merge", ",".join(str(ids[i]) for i in order),
+                                                " ; ".join(",".join(ent_str(e) for e in self.cache[nm][0]) for nm in outs))
+                    self.pendc[(si, n)] = pc
+                    m = self.model.cmd(pc)
+                    if not self.model_accepts("compact", "session %d op %d" % (si, n), si, n):
+                        raise Problem()
+                    if in_e != out_e:
+                        self.stats["gc_steps_accepted"] = self.stats.get("gc_steps_accepted", 0) + 1
+                    kept, prefix = self.canon_events(oe)
+                    self.compare_trace(kept, [c for c in m[6:].split(" ; ") if c], "compaction (session %d op %d)" % (si, n))
+                    self.probe_points(oe, prefix, "during compaction %d of session %d" % (n, si), list(self.acked), None, "compact " + res[:60], si, kill_ctx)
+                    fault_plan += self.plan_faults(si, n, oe, prefix)
+                    g = self.model_go("session %d op %d" % (si, n))
+        except StopLockstep as st:
+            if fault is None or st.resume is None:
+                raise
+            self.oracle_rest(real, so, segs, items, st.resume, fault, si)
+            raise StopLockstep()
         self.model.cmd("EXIT")
         # the process exited: everything written is there
-        if self.probing:
+        if self.probing and fault is None:
             self.session_scripts = getattr(self, "session_scripts", []) + [(start_fs, script, items)]
+
+    def oracle_probe(self, pr, inflight, where, rp):
+        """a crash image of a session that went on past an error, judged against the specification alone:
+        it holds the acknowledged writes, with or without the write whose own fdatasync failed, with or
+        without the batch in flight - each whole"""
+        bases = [list(self.acked)]
+        und = getattr(self, "undecided", None)
+        if und is not None:
+            w = list(self.acked)
+            w.insert(und[0], und[1])
+            bases.append(w)
+        cands = []
+        for b in bases:
+            cands.append(b)
+            if inflight is not None:
+                cands.append(b + [inflight])
+        self.stats["fault_oracle_probes"] = self.stats.get("fault_oracle_probes", 0) + 1
+        if pr["open"] != "ok":
+            self.problem("prop", "reopen after a crash %s failed: %s" % (where, pr["open"]), replay=rp)
+            return
+        vis = visible(pr["ents"])
+        match = next((c for c in cands if self.spec_map(c) == vis), None)
+        if match is None:
+            self.problem("prop", "after a crash %s the store does not hold the acknowledged writes (+ the write whose fdatasync failed, + the batch in flight, each whole)" % where,
+                         got={hx(k): hx(v)[:40] for k, v in vis.items()}, acked={hx(k): hx(v)[:40] for k, v in self.spec_map(self.acked).items()}, replay=rp)
+            return
+        self.check_probe(pr, None, where, match, None, rp)
+
+    def oracle_rest(self, real, so, segs, items, start, fault, si):
+        """the rest of a faulted session the model does not follow: crash images all along it and the
+        directory it leaves must hold what THIS run acknowledged"""
+        self.stats["fault_oracle_continuations"] = self.stats.get("fault_oracle_continuations", 0) + 1
+        rp0 = self.fault_rp(fault, si, fault[0])
+        for n in range(start, len(items) + 1):
+            kind, payload = items[n - 1]
+            res = so.res.get(n)
+            if res is None:
+                self.problem("prop", "after an injected error an operation did not return: %s" % kind, replay=dict(rp0, op=n))
+                return
+            if res == "PANIC" and kind != "compact":
+                self.problem("prop", "after an injected error a later %s panicked" % kind, replay=dict(rp0, op=n))
+                return
+            if kind == "dump":
+                files, _ = parse_dump(so.info.get(n, []), res, self.cache)
+                self.tree, self.tree_levels = [nm for _, nm in files], files
+            inflight = list(payload) if kind == "w" else None
+            for ev in segs.get(n, []):
+                if ev.kind is not None and not ev.failed and (self.rng.chance(1, 4) if self.tier == "quick" else self.rng.chance(1, 2)):
+                    modes = ("a", "b") + (("l",) if self.fs.manifest_unsynced() else ())
+                    for mode in modes:
+                        pr = probe(self.exe, self.image_dir(self.fs.image(mode, self.rng), "img"), self.opts)
+                        self.oracle_probe(pr, inflight, "in a session that went on past an injected error, during %s %d before %s(%s), model (%s)" % (kind, n, ev.sys, ev.p1, mode),
+                                          dict(rp0, op=n, crash_before_call="%s(%s)" % (ev.sys, ev.p1), crash_model=mode))
+                self.fs.apply(ev)
+            if kind == "w" and res == "ok":
+                self.acked.append(list(payload))
+                self.stats["fault_oracle_acked_after"] = self.stats.get("fault_oracle_acked_after", 0) + 1
+        pr = probe(self.exe, real, self.opts)
+        self.oracle_probe(pr, None, "after the session that went on past an injected error exited", rp0)
+
+    def fault_rp(self, fault, si, n):
+        ev = fault[1]
+        return {"options": self.optname, "history": ops_to_json(self.ops), "session": fault[3], "op": n,
+                "injected": "%s at %s #%d (thread-wide) on %s%s, operation %s" % (fault[2], ev.sys, ev.tk, ev.p1, (" -> " + ev.p2) if ev.p2 else "", fault[0])}
+
+    def faulted_op(self, fault, oe, res, kind, si, n):
+        """the operation the error is injected into (its PEND is the model's pending operation): the calls
+        up to and after the failing one must be the model's, the error must come back exactly when the
+        model says so, and the model goes on when no file recovery reads was changed"""
+        hit = [r for r, e in enumerate(oe) if e.injected]
+        kept, prefix = self.canon_events(oe)
+        if len(hit) != 1 or prefix[hit[0] + 1] != prefix[hit[0]] + 1:
+            self.stats["fault_lockstep_discarded"] = self.stats.get("fault_lockstep_discarded", 0) + 1
+            raise StopLockstep()
+        k = prefix[hit[0]]
+        fc = self.model.cmd("FCALLS %d" % k)
+        self.compare_trace(kept, [c for c in fc[6:].split(" ; ") if c], "%s with an injected error (session %d op %d)" % (kind, si, n))
+        g = self.model.cmd("GOF %d" % k)
+        t = dict(kv.split("=", 1) for kv in g.split(" ")[1:] if "=" in kv)
+        surfaced = res.startswith("err") or res == "PANIC"
+        self.stats["fault_lockstep_runs"] = self.stats.get("fault_lockstep_runs", 0) + 1
+        if res == "PANIC":
+            self.problem("prop", "an injected %s made the %s panic" % (fault[2], kind), replay=self.fault_rp(fault, si, n))
+            raise Problem()
+        if (t.get("err") == "1") != surfaced:
+            self.problem("prop" if t.get("err") == "1" else "corr",
+                         "the model %s the injected error to be returned by the %s, the store answered %s" % ("expects" if t.get("err") == "1" else "does not expect", kind, res[:40]),
+                         replay=self.fault_rp(fault, si, n))
+            raise Problem()
+        for ev in oe:
+            self.fs.apply(ev)
+        if t.get("env") != "1":
+            self.stats["fault_lockstep_left_envelope"] = self.stats.get("fault_lockstep_left_envelope", 0) + 1
+            if kind == "write" and surfaced and fault[1].kind == "sync":
+                # the write whose own fdatasync failed: its frame is in the file, durable or not
+                self.undecided = (len(self.acked), list(self.cur_payload))
+            raise StopLockstep(resume=n + 1)
+        self.stats["fault_lockstep_continued"] = self.stats.get("fault_lockstep_continued", 0) + 1
+        self.in_continuation = True
+        return g
+
+    def lockstep_eligible(self, si, opn, ev):
+        """a full trace (no -P) addresses a call by (thread, syscall, count): only the main thread's calls,
+        and only when no other thread makes as many calls of that syscall in the session"""
+        if opn == "open" or si not in getattr(self, "session_ops", {}) or ev.kind is None:
+            return False
+        evs_all = self.all_events.get(si, [])
+        main = next((e.pid for e in evs_all if e.marker), None)
+        if ev.pid != main:
+            return False
+        other = {}
+        for e in evs_all:
+            if e.pid != main and e.sys == ev.sys:
+                other[e.pid] = other.get(e.pid, 0) + 1
+        return not any(c >= ev.tk for c in other.values())
+
+    def fault_lockstep(self, si, opn, ev, errno):
+        """the session with the error injected, fully traced, the model in lock step THROUGH the error:
+        later operations are compared call by call, crash points after the error are probed against the
+        model, and at the end the directory must reopen to what was acknowledged in this run"""
+        if not self.lockstep_eligible(si, opn, ev):
+            return
+        start_fs, script, items = self.session_scripts[si]
+        saved = (self.fs, self.acked, self.tree, getattr(self, "tree_levels", []), self.probing, getattr(self, "k2_poisoned", False))
+        nprob = len(self.problems)
+        self.model.cmd("SAVE")
+        try:
+            if self.model.cmd("GOTO s%d" % si) != "OK":
+                return
+            self.fs, self.acked, self.in_continuation, self.fault_mode = start_fs.clone(), self.acked_before_session(si), False, True
+            self.undecided = None
+            d = self.image_dir(start_fs, "flk")
+            self.stats["fault_lockstep_attempts"] = self.stats.get("fault_lockstep_attempts", 0) + 1
+            self.play_session(d, 2000 + si, self.session_ops[si], fault=(opn, ev, errno, si))
+            # the process exited: reopen; the model's directory is the same one
+            pr = probe(self.exe, d, self.opts)
+            self.model.cmd("PEND O")
+            mq = self.model.cmd("Q 0 a")
+            self.check_probe(pr, mq, "after a session that went on past an injected %s" % errno, list(self.acked), None, self.fault_rp((opn, ev, errno, si), si, opn))
+            self.stats["fault_lockstep_completed"] = self.stats.get("fault_lockstep_completed", 0) + 1
+        except (Problem, StopLockstep):
+            pass
+        finally:
+            for pb in self.problems[nprob:]:
+                pb["what"] = "[session continued past an injected %s at %s(%s)] %s" % (errno, ev.sys, ev.p1, pb["what"])
+                if isinstance(pb.get("replay"), dict) and "injected" not in pb["replay"]:
+                    pb["replay"] = dict(pb["replay"], **self.fault_rp((opn, ev, errno, si), si, opn))
+            self.fs, self.acked, self.tree, self.tree_levels, self.probing, self.k2_poisoned = saved
+            self.in_continuation = self.fault_mode = False
+            self.model.cmd("RESTORE")
 
     def plan_faults(self, si, opn, evs, prefix):
         """candidate fault points of the pending operation; for a sample of them ask the model (whose
@@ -953,6 +1194,24 @@ class History:
                     pred = a[10] == "1"
             out.append((si, opn, ev, pred))
         return out
+
+    def model_accepts(self, kind, where, si, n):
+        """every step must be one the theorems' transition system takes (ProofsLts.accepted, evaluated by
+        the extracted acceptedb): a write names each key once; a compaction's inputs are live, its outputs
+        hold only entries of its inputs and no key reads differently afterwards"""
+        a = self.model.cmd("ACC")
+        self.stats["steps_accepted_evaluated"] = self.stats.get("steps_accepted_evaluated", 0) + 1
+        if a == "ACC 1":
+            return True
+        self.stats["accepted_rejections"] = self.stats.get("accepted_rejections", 0) + 1
+        if kind != "compact":
+            self.problem("corr", "the model rejects a %s as a step (%s): %s" % (kind, where, a))
+        elif self.tree_ill_formed() or getattr(self, "k2_poisoned", False):
+            self.known.append(("K2", "a compaction over a tree with an ill-formed level changes what a key reads as"))
+        else:
+            self.problem("prop", "a compaction changed what some key reads as, or produced entries its inputs do not hold (%s)" % where,
+                         replay={"options": self.optname, "history": ops_to_json(self.ops), "session": si, "op": n})
+        return False
 
     def model_go(self, where):
         g = self.model.cmd("GO")
@@ -1003,6 +1262,12 @@ class History:
         for si, opn, ev, pred in picks:
             errno = "EIO" if self.rng.chance(1, 2) else "ENOSPC"
             self.fault_one(si, opn, ev, errno, pred)
+        # ---- sessions that go on past the error with the model in lock step
+        elig = [c for c in plan if self.lockstep_eligible(c[0], c[1], c[2])]
+        n = min(len(elig), 2 if self.tier == "quick" else 30)
+        for _ in range(n):
+            si, opn, ev, pred = elig.pop(self.rng.below(len(elig)))
+            self.fault_lockstep(si, opn, ev, "EIO" if self.rng.chance(1, 2) else "ENOSPC")
 
     def fault_one(self, si, opn, ev, errno, pred=None):
         """re-run session si from its starting directory with one injected error; the operation it
@@ -1354,7 +1619,8 @@ def run(chk):
     chk.assumptions = ["single-stepped execution: no operation runs concurrently with another (C06/C07/C20 treat concurrency)",
                        "a log append is ONE write(): true while LogOptions.write_buffer holds a whole frame (default 2 MiB against frames of at most 1 MiB; the histories use the default and 4096); below that header and body are separate calls and a crash between them tears the record (probe recorded)",
                        "the unit of loss is a whole write() call; torn writes are C09's subject (F8 probe recorded)",
-                       "garbage-collecting compactions are covered by the correspondence (file sets, reads) but not by the entry-level theorem"]
+                       "every step of every history is evaluated against the theorems' `accepted` (extracted acceptedb): write batches name each key once; a compaction - merging or garbage-collecting - has live inputs, outputs that hold only entries of the inputs, and leaves what every key reads as unchanged (that it does so on the real tree is C05's theorem; here it is checked step by step, rejections counted in accepted_rejections)",
+                       "after a surfaced I/O error the model goes on in lock step when the error left every file recovery reads unchanged (same_relb: the write() of a log append, the first call of a flush, a compaction before its first hard link) and for the refusals that follow (writes on a failed log, flushes of a dead memtable thread); past other errors (a failed fdatasync of the log or of the manifest, a flush past its rollover, a compaction past its first link) the running store is judged against the specification only; a fully traced faulted session can only address calls of the main thread (strace counts injections per thread), so errors inside the memtable thread are judged without the model too"]
     if torn == "PANIC":
         chk.notes.append("F8 regression: open of a torn log panics again")
     if reported == 0 and (corr_only or not ok_proof):
